@@ -15,12 +15,12 @@ FILES = ["m", "test_m", "tests", "docs", "test", "conftest"]
 
 
 class Tree:
-    def __init__(self, tid: int, dirs: list[tuple[tuple[str, ...], bool]], fname: str, imported: bool = False):
+    def __init__(self, tid: int, dirs: list[tuple[tuple[str, ...], bool]], fname: str, imported: bool | str = False):
         """dirs: list of (path below tree root, has __init__).  imported: the package __init__ of each special directory
         defines a function and the ordinary module imports it (which pulls that __init__ into the type checker's graph)."""
         self.tid = tid
         self.T = f"{tid:04d}"
-        self.label = "+".join("/".join(p) + ("" if init else "(no-init)") for p, init in dirs) + f":{fname}.py" + (":imported-init" if imported else "")
+        self.label = "+".join("/".join(p) + ("" if init else "(no-init)") for p, init in dirs) + f":{fname}.py" + (":imported-module" if imported == "module" else (":imported-init" if imported else ""))
         self.files: dict[str, str] = {}
         self.expect: list[tuple[str, bool]] = []  # (function name, excluded without flag)
         root = f"{PKG}/t{self.T}"
@@ -38,7 +38,12 @@ class Tree:
             func = f"fn{self.T}{k}"
             self.files[f"{root}/{'/'.join(path)}/{fn}.py"] = f"def {func}(a: int) -> int:\n    return a\n"
             self.expect.append((func, any(seg in EXCLUDED for seg in path)))
-            if imported and init:
+            if imported == "module" and init:
+                # the ordinary module imports a function of the MODULE inside the special directory (this pulls that
+                # module into the type checker's graph although it is not among the analysed files)
+                pkg_dotted = f"{PKG}.t{self.T}." + ".".join(path)
+                self.files[f"{root}/ord{self.T}.py"] = f"from {pkg_dotted}.{fn} import {func}\n\n\n" + self.files[f"{root}/ord{self.T}.py"]
+            elif imported and init:
                 ifn = f"initfn{self.T}{k}"
                 pkg_dotted = f"{PKG}.t{self.T}." + ".".join(path)
                 self.files[f"{root}/{'/'.join(path)}/__init__.py"] = f"def {ifn}(a: int) -> int:\n    return a\n\n\nclass InitCls{self.T}{k}:\n    def im(self) -> int:\n        return 1\n"
@@ -60,6 +65,8 @@ def enumerate_trees(tier: str) -> list[Tree]:
         for depth in (1, 2):
             path = (d,) if depth == 1 else (f"mid{next(tid):04d}", d)
             out.append(Tree(next(tid), [(path, True)], "m", imported=True))
+            for fname in ("m", "conftest", "test_m"):
+                out.append(Tree(next(tid), [(path, True)], fname, imported="module"))
     if tier == "thorough":
         for d1, d2 in itertools.product(DIRS, repeat=2):
             for init in (True, False):
